@@ -23,6 +23,7 @@ type SolveResult struct {
 	File    string
 	Model   string
 	Confirm string // second solver's verdict (thorough tier)
+	MaxS    float64 // slowest single query of the obligation
 }
 
 type solverSpec struct {
@@ -72,7 +73,16 @@ func firstWord(out string) string {
 	return "error"
 }
 
+// procSem bounds the number of solver processes running at any time.
+var procSem = make(chan struct{}, 14)
+
 func runSolver(ctx context.Context, sp solverSpec, file string, timeoutS int) (string, string, float64) {
+	select {
+	case procSem <- struct{}{}:
+	case <-ctx.Done():
+		return "unknown", "", 0
+	}
+	defer func() { <-procSem }()
 	args := sp.args(file, timeoutS)
 	cctx, cancel := context.WithTimeout(ctx, time.Duration(timeoutS+2)*time.Second)
 	defer cancel()
@@ -98,6 +108,7 @@ func writeObligation(prelude string, fr *FuncResult, o *Obligation, wantModel bo
 	}
 	sb.WriteString("(set-logic ALL)\n")
 	sb.WriteString(prelude)
+	sb.WriteString(fr.Extra)
 	sb.WriteString("; ---- function encoding ----\n")
 	var anc []bool
 	if o.Block >= 0 && o.Block < len(fr.Anc) {
@@ -151,7 +162,7 @@ type solveConfig struct {
 }
 
 // solveAll discharges the obligations in parallel.
-func solveAll(prelude string, frs []*FuncResult, lemmas []*Lemma, cfg solveConfig) []*SolveResult {
+func solveAll(prelude string, opaque map[string]string, frs []*FuncResult, lemmas []*Lemma, cfg solveConfig) []*SolveResult {
 	type job struct {
 		o    *Obligation
 		text string
@@ -178,7 +189,11 @@ func solveAll(prelude string, frs []*FuncResult, lemmas []*Lemma, cfg solveConfi
 	for _, l := range lemmas {
 		o := &Obligation{Name: "lemma:" + l.Name, Kind: "lemma", Func: "spec", Props: l.Props, Desc: "specification-level lemma"}
 		results = append(results, &SolveResult{Obl: o, Status: "unsat"})
-		jobs = append(jobs, job{o, "(set-logic ALL)\n" + prelude + "; ---- lemma " + l.Name + " ----\n" + l.Body + "(check-sat)\n", len(results) - 1})
+		extra := ""
+		for _, r := range l.Reveal {
+			extra += opaque[r]
+		}
+		jobs = append(jobs, job{o, "(set-logic ALL)\n" + prelude + extra + "; ---- lemma " + l.Name + " ----\n" + l.Body + "(check-sat)\n", len(results) - 1})
 	}
 	var wg sync.WaitGroup
 	var mu sync.Mutex
@@ -197,6 +212,9 @@ func solveAll(prelude string, frs []*FuncResult, lemmas []*Lemma, cfg solveConfi
 			mu.Lock()
 			agg := results[j.res]
 			agg.TimeS += r.TimeS
+			if r.TimeS > agg.MaxS {
+				agg.MaxS = r.TimeS
+			}
 			if agg.Solver == "" {
 				agg.Solver = r.Solver
 			}
@@ -224,8 +242,8 @@ func solveOne(o *Obligation, file string, cfg solveConfig) *SolveResult {
 	res := &SolveResult{Obl: o, File: file}
 	// stage 1: z3 5.1 with a short limit
 	short := cfg.timeoutS
-	if short > 2 {
-		short = 2
+	if short > 3 {
+		short = 3
 	}
 	st, out, el := runSolver(ctx, solvers[0], file, short)
 	res.TimeS += el
